@@ -466,12 +466,12 @@ func lockOrderRules(r *R, rule string) *lockGraph {
 }
 
 // reachFrom: lock → final acquirer → first hop, for the locks callee e.Callee
-// may acquire when entered from call site S of f. A call site T inside
-// e.Callee is left out when every path of f reaching S has established, about
-// a message passed as an argument, the opposite of an accessor fact that
-// dominates T (e.g. the caller only lets new and restart requests through and
-// T is under "not new, not restart, cancel"). Depth one: deeper hops are taken
-// from the context-free closure.
+// may acquire when entered from call site S of f. A call site T inside the
+// callee (and, following message-typed arguments, inside its callees, up to
+// three levels) is left out when every path of f reaching S has established,
+// about a message passed along as an argument, the opposite of an accessor
+// fact that dominates T (e.g. the caller only lets non-cancel requests through
+// and T is under "cancel"). Elsewhere the context-free closure is used.
 func (lg *lockGraph) reachFrom(p *core.Prog, f *ssa.Function, S ssa.CallInstruction, e core.Edge, syncOut map[*ssa.Function][]core.Edge) map[string]map[*ssa.Function]*ssa.Function {
 	out := map[string]map[*ssa.Function]*ssa.Function{}
 	put := func(l string, fin, via *ssa.Function) {
@@ -482,46 +482,71 @@ func (lg *lockGraph) reachFrom(p *core.Prog, f *ssa.Function, S ssa.CallInstruct
 			out[l][fin] = via
 		}
 	}
-	c1 := e.Callee
-	ctx := newCallContext(p, f, S, c1, e.Kind)
-	for _, ci := range core.CallSites(c1) {
-		if _, isGo := ci.(*ssa.Go); isGo {
-			continue
+	alts := rootAlts(p, f, S, e)
+	var rec func(fn *ssa.Function, alts []ctxAlt, depth int, via *ssa.Function, stack map[*ssa.Function]bool)
+	rec = func(fn *ssa.Function, alts []ctxAlt, depth int, via *ssa.Function, stack map[*ssa.Function]bool) {
+		first := func(next *ssa.Function) *ssa.Function {
+			if via != nil {
+				return via
+			}
+			return next
 		}
-		id := ""
-		if op := classifyLock(ci.Common()); op != nil && op.acquire {
-			id = op.id
-		} else if isPubsubAcquire(p, ci.Common()) {
-			id = psLock
+		for _, ci := range core.CallSites(fn) {
+			if _, isGo := ci.(*ssa.Go); isGo {
+				continue
+			}
+			id := ""
+			if op := classifyLock(ci.Common()); op != nil && op.acquire {
+				id = op.id
+			} else if isPubsubAcquire(p, ci.Common()) {
+				id = psLock
+			}
+			if id == "" {
+				continue
+			}
+			if ok, _ := feasibleAlts(p, fn, ci.(ssa.Instruction), alts); len(alts) == 0 || len(ok) > 0 {
+				put(id, fn, first(fn))
+			}
 		}
-		if id != "" && ctx.feasible(ci.(ssa.Instruction)) {
-			put(id, c1, c1)
-		}
-	}
-	for _, e2 := range syncOut[c1] {
-		if e2.Site != nil && !ctx.feasible(e2.Site) {
-			lg.pruned = append(lg.pruned, core.ShortFn(f)+" → "+core.ShortFn(c1)+" ↛ "+core.ShortFn(e2.Callee)+" ("+ctx.why+")")
-			continue
-		}
-		for l, fins := range lg.final[e2.Callee] {
-			for fin := range fins {
-				put(l, fin, e2.Callee)
+		for _, e2 := range syncOut[fn] {
+			next := alts
+			if e2.Site != nil && len(alts) > 0 {
+				ok, why := feasibleAlts(p, fn, e2.Site, alts)
+				if len(ok) == 0 {
+					lg.pruned = append(lg.pruned, core.ShortFn(f)+" → … → "+core.ShortFn(fn)+" ↛ "+core.ShortFn(e2.Callee)+" ("+why+")")
+					continue
+				}
+				next = ok
+			}
+			var deeper []ctxAlt
+			if depth > 0 && e2.Site != nil && len(next) > 0 && !stack[e2.Callee] && (e2.Kind == "call" || e2.Kind == "defer" || e2.Kind == "") {
+				if ci, isCall := e2.Site.(ssa.CallInstruction); isCall {
+					deeper = passAlts(p, fn, ci, e2.Callee, next)
+				}
+			}
+			if len(deeper) > 0 {
+				stack[e2.Callee] = true
+				rec(e2.Callee, deeper, depth-1, first(e2.Callee), stack)
+				delete(stack, e2.Callee)
+				continue
+			}
+			for l, fins := range lg.final[e2.Callee] {
+				for fin := range fins {
+					put(l, fin, first(e2.Callee))
+				}
 			}
 		}
 	}
+	rec(e.Callee, alts, 3, nil, map[*ssa.Function]bool{e.Callee: true})
 	return out
 }
 
-// callContext decides whether an instruction of callee c1 can execute when c1
-// is entered from call site S of f.
-type callContext struct {
-	p     *core.Prog
-	c1    *ssa.Function
-	paths []*core.Path // paths of f through S
-	args  map[*ssa.Parameter]ssa.Value
-	S     ssa.CallInstruction
-	ok    bool
-	why   string
+// ctxAlt is one way control reaches the function under analysis: what is known
+// (atoms in the root function's terms) and how the function's message-typed
+// parameters read in those terms.
+type ctxAlt struct {
+	known map[string]bool
+	subst map[*ssa.Parameter]string
 }
 
 var lockPathsCache = map[*ssa.Function][]*core.Path{}
@@ -531,30 +556,32 @@ func isMessageType(t types.Type) bool {
 	return s == "datatransfer.Request" || s == "datatransfer.Response" || s == "datatransfer.Message"
 }
 
-func newCallContext(p *core.Prog, f *ssa.Function, S ssa.CallInstruction, c1 *ssa.Function, kind string) *callContext {
-	cc := &callContext{p: p, c1: c1, S: S, args: map[*ssa.Parameter]ssa.Value{}}
-	if kind != "call" && kind != "defer" && kind != "" {
-		return cc
-	}
-	c := S.Common()
-	var actual []ssa.Value
+func actualArgs(c *ssa.CallCommon) []ssa.Value {
 	if c.IsInvoke() {
-		actual = append([]ssa.Value{c.Value}, c.Args...)
-	} else {
-		actual = c.Args
+		return append([]ssa.Value{c.Value}, c.Args...)
 	}
+	return c.Args
+}
+
+// rootAlts: one alternative per path of f through S, when the callee takes a
+// message; nil (no context) otherwise.
+func rootAlts(p *core.Prog, f *ssa.Function, S ssa.CallInstruction, e core.Edge) []ctxAlt {
+	if e.Kind != "call" && e.Kind != "defer" && e.Kind != "" {
+		return nil
+	}
+	c1 := e.Callee
+	actual := actualArgs(S.Common())
 	if len(actual) != len(c1.Params) {
-		return cc
+		return nil
 	}
-	any := false
+	var msgParams []int
 	for i, q := range c1.Params {
 		if isMessageType(q.Type()) {
-			cc.args[q] = actual[i]
-			any = true
+			msgParams = append(msgParams, i)
 		}
 	}
-	if !any {
-		return cc
+	if len(msgParams) == 0 {
+		return nil
 	}
 	ps, done := lockPathsCache[f]
 	if !done {
@@ -565,59 +592,135 @@ func newCallContext(p *core.Prog, f *ssa.Function, S ssa.CallInstruction, c1 *ss
 		}
 		lockPathsCache[f] = ps
 	}
+	var alts []ctxAlt
 	for _, pt := range ps {
+		through := false
 		for _, ev := range pt.Evs {
 			if ev.Instr == S.(ssa.Instruction) {
-				cc.paths = append(cc.paths, pt)
+				through = true
 				break
 			}
 		}
+		if !through {
+			continue
+		}
+		a := ctxAlt{known: map[string]bool{}, subst: map[*ssa.Parameter]string{}}
+		for _, at := range pt.AtomsBefore(S.(ssa.Instruction)) {
+			a.known[at.String()] = true
+		}
+		for _, i := range msgParams {
+			a.subst[c1.Params[i]] = stripAssert(pt.Desc(actual[i]))
+		}
+		alts = append(alts, a)
 	}
-	cc.ok = len(cc.paths) > 0
-	return cc
+	return alts
 }
 
-func (cc *callContext) feasible(T ssa.Instruction) bool {
-	if !cc.ok {
-		return true
+// stripAssert: a message asserted to its request/response interface is the
+// same object (x.(datatransfer.Request) and x answer accessors alike).
+func stripAssert(s string) string {
+	for _, suf := range []string{".(datatransfer.Request)", ".(datatransfer.Response)", ".(datatransfer.Message)", ".(datatransfer.Request)?#0", ".(datatransfer.Response)?#0"} {
+		s = strings.TrimSuffix(s, suf)
 	}
-	facts := cc.p.Facts(cc.c1)[T.Block()]
-	if len(facts) == 0 {
-		return true
-	}
-	for _, pt := range cc.paths {
-		d := cc.p.D()
-		d.Subst = map[*ssa.Parameter]string{}
-		var prefixes []string
-		for q, v := range cc.args {
-			s := pt.Desc(v)
-			d.Subst[q] = s
-			prefixes = append(prefixes, s+".")
+	return s
+}
+
+func accessorAtom(a core.Atom, prefixes []string) (core.Atom, bool) {
+	for _, pre := range prefixes {
+		for _, mid := range []string{"", ".(datatransfer.Request)", ".(datatransfer.Response)", ".(datatransfer.Request)?#0", ".(datatransfer.Response)?#0"} {
+			full := pre + mid + "."
+			if strings.HasPrefix(a.S, full) && strings.HasSuffix(a.S, "()") && !strings.ContainsAny(a.S[len(full):len(a.S)-2], ".(") {
+				return core.Atom{S: pre + "." + a.S[len(full):], Pol: a.Pol}, true
+			}
 		}
-		before := pt.AtomsBefore(cc.S.(ssa.Instruction))
+	}
+	return a, false
+}
+
+// siteAtoms: accessor facts on passed-in messages that dominate T in fn,
+// rendered through the alternative's substitution (normalised: assertions
+// stripped).
+func siteAtoms(p *core.Prog, fn *ssa.Function, T ssa.Instruction, alt ctxAlt) []core.Atom {
+	facts := p.Facts(fn)[T.Block()]
+	if len(facts) == 0 {
+		return nil
+	}
+	d := p.D()
+	d.Subst = alt.subst
+	var prefixes []string
+	for _, s := range alt.subst {
+		prefixes = append(prefixes, s)
+	}
+	var out []core.Atom
+	for _, fc := range facts {
+		if a, ok := accessorAtom(d.NormAtom(fc.Cond, fc.Pol), prefixes); ok {
+			out = append(out, a)
+		}
+	}
+	return out
+}
+
+// feasibleAlts: the alternatives under which T can execute.
+func feasibleAlts(p *core.Prog, fn *ssa.Function, T ssa.Instruction, alts []ctxAlt) ([]ctxAlt, string) {
+	var ok []ctxAlt
+	why := ""
+	for _, alt := range alts {
+		var prefixes []string
+		for _, s := range alt.subst {
+			prefixes = append(prefixes, s)
+		}
 		contradicted := false
-		for _, fc := range facts {
-			a := d.NormAtom(fc.Cond, fc.Pol)
-			// only no-argument accessor calls on a message that was passed in
-			isAcc := false
-			for _, pre := range prefixes {
-				if strings.HasPrefix(a.S, pre) && strings.HasSuffix(a.S, "()") && !strings.ContainsAny(a.S[len(pre):len(a.S)-2], ".(") {
-					isAcc = true
-				}
-			}
-			if !isAcc {
-				continue
-			}
-			for _, b := range before {
-				if b.S == a.S && b.Pol != a.Pol {
+		for _, a := range siteAtoms(p, fn, T, alt) {
+			neg := core.Atom{S: a.S, Pol: !a.Pol}
+			for k := range alt.known {
+				if kb, isAcc := accessorAtom(core.ParseAtom(k), prefixes); isAcc && kb == neg {
 					contradicted = true
-					cc.why = "caller established " + b.String()
+					why = "caller established " + k
 				}
 			}
 		}
 		if !contradicted {
-			return true
+			ok = append(ok, alt)
 		}
 	}
-	return false
+	return ok, why
+}
+
+// passAlts: the alternatives as seen inside callee c2 entered from site T of
+// fn: facts dominating T join what is known, and c2's message parameters are
+// bound to the arguments; nil when c2 takes no message that fn knows about.
+func passAlts(p *core.Prog, fn *ssa.Function, T ssa.CallInstruction, c2 *ssa.Function, alts []ctxAlt) []ctxAlt {
+	actual := actualArgs(T.Common())
+	if len(actual) != len(c2.Params) || len(c2.Blocks) == 0 {
+		return nil
+	}
+	var out []ctxAlt
+	for _, alt := range alts {
+		d := p.D()
+		d.Subst = alt.subst
+		na := ctxAlt{known: map[string]bool{}, subst: map[*ssa.Parameter]string{}}
+		for k := range alt.known {
+			na.known[k] = true
+		}
+		for _, a := range siteAtoms(p, fn, T.(ssa.Instruction), alt) {
+			na.known[a.String()] = true
+		}
+		any := false
+		for i, q := range c2.Params {
+			if !isMessageType(q.Type()) {
+				continue
+			}
+			s := stripAssert(d.Of(actual[i]))
+			for _, known := range alt.subst {
+				if s == known {
+					na.subst[q] = s
+					any = true
+				}
+			}
+		}
+		if any {
+			out = append(out, na)
+		}
+	}
+	return out
 }
